@@ -25,15 +25,15 @@ Proof.
 Qed.
 
 Lemma rs_pd_spec a b : dt_pair a b -> 1 <= p_year a -> p_wall a < p_wall b ->
-  pd_spec a b (rs_precise_diff a b true) /\
-  pd_total_days (rs_precise_diff a b true) = rs_day_number (p_year b) (p_month b) (p_day b) - rs_day_number (p_year a) (p_month a) (p_day a).
+  pd_spec a b (rs_precise_diff a b) /\
+  pd_total_days (rs_precise_diff a b) = rs_day_number (p_year b) (p_month b) (p_day b) - rs_day_number (p_year a) (p_month a) (p_day a).
 Proof.
   intros (Wa & Wb & Da & Db & Htz) Hy Hlt.
   destruct Wa as (Va & Ta & Oa). destruct Wb as (Vb & Tb & Ob).
   pose proof (wall_le_split a b Ta Tb ltac:(lia)) as Hsplit.
   assert (Hlex := fun H => ord_le_lex a b Va Vb H).
   pose proof (same_date_tod a b) as Hsame. specialize (fun e1 e2 e3 => Hsame e1 e2 e3 Hlt).
-  unfold rs_precise_diff. rewrite Db. cbn [andb]. rewrite Da.
+  unfold rs_precise_diff. rewrite Db, Da.
   rewrite (rs_info_plain a) by assumption. rewrite (rs_info_plain b) by assumption.
   apply valid_dateb_true in Va, Vb.
   assert (Hle : p_date_ord a <= p_date_ord b) by (clear - Hsplit; lia). pose proof (Hlex Hle) as Hl2.
